@@ -345,12 +345,25 @@ def kernel_value(ix, name, relpath=UM, follow_alias=True):
         lp = one(st.loops, 'element loop')
         ta = atom_of(fl, st.target)
         if st.op is not None or len(ta.args) != 2 or not fl.tab.equal(ta.args[1], lp.index):
-            raise AnalysisError('unexpected element store in %s' % tgt.name)
+            raise KernelShape('%s: element store %s is not out[n] = f(n)' % (tgt.name, unparse(st.node)), tgt, fl)
         p0 = fl.tab.name(tgt.params()[0])
         if not loop_matches(fl, lp, '0', 'X.shape[0]', {'X': p0}):
-            raise AnalysisError('element loop of %s does not cover the array' % tgt.name)
+            raise KernelShape('%s: element loop %s does not cover the array' % (tgt.name, unparse(lp.iter_ast)), tgt, fl)
+        if st.guards:
+            raise KernelShape('%s: element store is conditional on %s (skipped elements keep np.empty garbage)' % (
+                tgt.name, [g.text() for g in st.guards]), tgt, fl)
+        if r.guards or r.loops:
+            raise KernelShape('%s: the result is returned conditionally' % tgt.name, tgt, fl)
         return fl, tgt, st.value, lp.index
+    if r.guards or r.loops:
+        raise KernelShape('%s: the result is returned conditionally' % tgt.name, tgt, fl)
     return fl, tgt, v, None
+
+
+class KernelShape(Exception):
+    def __init__(self, msg, tgt, fl):
+        Exception.__init__(self, msg)
+        self.tgt = tgt
 
 
 ARR = {'lin': ['x11', 'x12'], 'bilin': ['x11', 'x12', 'x21', 'x22']}
@@ -400,7 +413,15 @@ def kernels(ix, R, names=SELECTED, pfx='4', note_only=False):
         site = UM + '::' + name
         stmt = 'selected kernel %s == %s' % (name, desc)
         with R.guard(pfx + '.' + name, 'ALG', site, stmt):
-            fl, tgt, val, idx = kernel_value(ix, name)
+            try:
+                fl, tgt, val, idx = kernel_value(ix, name)
+            except KernelShape as e:
+                if note_only:
+                    R.note('non-selected kernel: %s' % e)
+                    continue
+                R.fail(pfx + '.' + name, 'ALG', e.tgt.site, stmt + ' (resolves to %s)' % e.tgt.name,
+                       key=str(e), detail=str(e), loc=e.tgt.loc())
+                continue
             val = inline_calls(ix, fl, val, UM, HELPERS)
             want = kernel_spec(fl, tgt, which, idx)
             ok = fl.tab.equal(val, want)
@@ -553,4 +574,8 @@ EQUIVALENTS = [
      'out[n] = (1 - Pscale) * (1 - Tscale) * x11[n] + Pscale * (1 - Tscale) * x21[n] + (1 - Pscale) * Tscale * x12[n] + Pscale * Tscale * x22[n]'),
     ('pair-order', UU, 'right = max(min(arr.shape[0] - 1, right), 1)', 'right = max(1, min(right, arr.shape[0] - 1))'),
     ('compute-temp', IO, 'logpressure = math.log10(pressure)', 'logpressure = np.log10(pressure)'),
+]
+UNCONDITIONAL = [
+    (UM, 'out[n] = x11[n] - scale * (x11[n] - x12[n])'),
+    (UM, 'out[n] = x11[n] - Pscale * (x11[n] - x21[n])', 1),
 ]
